@@ -309,7 +309,7 @@ CASES = {"history": case_history, "fresh_replay": case_fresh_replay}
 
 def run(r) -> None:
     quick = r.tier == "quick"
-    d1, d2 = (4, 3) if quick else (6, 4)
+    d1, d2 = (4, 3) if quick else (7, 5)
     cases = []
     for dim in (2, 3):
         for reset in (False, True):
